@@ -18,6 +18,7 @@ import (
 
 	"verif/internal/build"
 	"verif/internal/ev"
+	vgen "verif/internal/gen"
 )
 
 func TestMain(m *testing.M) { ev.Main(m, "C17", "exploration") }
@@ -65,6 +66,9 @@ type Case struct {
 	TablePad    int    `json:"table_pad"`
 	Trailer     int    `json:"trailer"`
 	Via         string `json:"via"` // "reader", "png", "jpeg"
+	// Hdr, when 128 bytes long, supplies header bytes 8..99 (version, class, colour spaces, date, platform, flags,
+	// device, intent, illuminant, creator, ID): legal values that have nothing to do with the description
+	Hdr []byte `json:"hdr,omitempty"`
 }
 
 const descSig = 0x64657363
@@ -79,6 +83,10 @@ func units(s string) []uint16 { return utf16.Encode([]rune(s)) }
 
 func (c Case) build() (profile []byte, descData []byte) {
 	p := build.ICC{Header: build.DefaultHeader(), Order: c.Order, Pad: c.Pad, TablePad: c.TablePad, Trailer: c.Trailer}
+	if len(c.Hdr) == 128 {
+		copy(p.Header[8:36], c.Hdr[8:36])
+		copy(p.Header[40:100], c.Hdr[40:100])
+	}
 	for i, t := range c.Tags {
 		var d []byte
 		if t.Sig == descSig {
@@ -283,9 +291,13 @@ func check(c Case) (kind, what string) {
 		// profile): reading starts at the reader's current position, wherever that is
 		h := int(ev.Hash(prof) % 997)
 		kind := []string{"bytes.Reader", "strings.Reader", "bytes.Buffer", "bufio.Reader", "io.SectionReader"}[h%5]
-		prefix := []int{1, 36, 128, 4096, len(prof)}[(h/5)%5]
+		prefix := []int{1, 36, 128, 4096, len(prof), 3900, 3964, 4000, 4092}[(h/5)%9]
+		body := prof
+		if h%2 == 0 {
+			body = append(append([]byte(nil), prof...), bytes.Repeat([]byte("more of the stream "), 400)...) // the profile is not the end of the stream
+		}
 		pn, msg = ev.Guard(func() {
-			r, _, cleanup := src.Std(kind, prefix, prof, "")
+			r, _, cleanup := src.Std(kind, prefix, body, "")
 			defer cleanup()
 			br, ok := r.(interface {
 				io.Reader
@@ -515,6 +527,15 @@ func gen(rt *rapid.T) Case {
 	}
 	c.TablePad = rapid.SampledFrom([]int{0, 0, 1, 2, 3}).Draw(rt, "tablepad")
 	c.Trailer = rapid.SampledFrom([]int{0, 0, 1, 4}).Draw(rt, "trailer")
+	if rapid.Bool().Draw(rt, "hdrfields") {
+		h := build.DefaultHeader()
+		c.Hdr = h[:]
+		vgen.HeaderFields(rt, "hdr", c.Hdr)
+		if rapid.Bool().Draw(rt, "hdrmisc") {
+			copy(c.Hdr[44:64], vgen.Payload(rt, "hdrdevice", 20)) // flags, manufacturer, model, attributes
+			copy(c.Hdr[80:100], vgen.Payload(rt, "hdrcreator", 20))
+		}
+	}
 	switch c.DescKind {
 	case "v2":
 		c.ASCII = genText(rt, "ascii")
